@@ -491,6 +491,7 @@ def run(chk, n_random, masks_files, maxlen):
             vm_reqs.append((1, [counts_wire(gcount), text, base, ops]))
             vm_reps.append(model)
     stratum_store_unavailable(chk)
+    stratum_duck_adapter(chk)
     chk.traces += len(cases)
     chk.extra.setdefault("strata", {}).update(counts)
     chk.extra["filter_masks_covered"] = f"{len(covered_masks)}/64 (blank/non-blank over 3 positions of P x 3 positions of G)"
@@ -556,6 +557,71 @@ def stratum_store_unavailable(chk):
                     chk.spec_fail(case, dict(first=r0, attempt=r1, flag_after_attempt=mid[0], save=r2,
                                              file_changed=after[3] != before[3]), "flag set, save refused, file unchanged", what)
     chk.extra.setdefault("strata", {})["store_unavailable"] = n
+
+
+class DuckFilteredAdapter(casbin.persist.Adapter):
+    """a filtered adapter the way third-party (SQL/ORM) adapters are written: a plain casbin Adapter that offers
+    load_filtered_policy and is_filtered WITHOUT subclassing casbin's FilteredAdapter interface and leaves the refusal to save a partial view
+    to the enforcer (its own save_policy writes unconditionally)"""
+
+    def __init__(self, path):
+        self._a = FilteredFileAdapter(path)
+
+    def load_policy(self, model):
+        return self._a.load_policy(model)
+
+    def load_filtered_policy(self, model, filter):
+        return self._a.load_filtered_policy(model, filter)
+
+    def is_filtered(self):
+        return self._a.is_filtered()
+
+    def save_policy(self, model):
+        return self._a._save_policy_file(model)
+
+
+def stratum_duck_adapter(chk):
+    """the enforcer's own guard: while the loaded policy is a filtered subset, Enforcer.save_policy refuses whatever
+    the adapter's class hierarchy looks like; a full load ends that state.  Implementation only."""
+    full = "p, alice, data1, read\np, bob, data2, write\ng, alice, admin\ng, bob, admin\np2, alice, read\n"
+    n = 0
+    for flt in ([["alice"], []], [[], ["bob"]], [["", "data2"], ["alice"]]):
+        with tempfile.TemporaryDirectory(prefix="c12_") as d:
+            path = os.path.join(d, "policy.csv")
+            with open(path, "wb") as f:
+                f.write(full.encode())
+            m = Model()
+            m.load_model_from_text(MODEL.format(gdef=GDEF[2]))
+            ad = DuckFilteredAdapter(path)
+            e = casbin.Enforcer(m, ad)
+            f1 = Filter()
+            f1.P, f1.G = list(flt[0]), list(flt[1])
+            e.load_filtered_policy(f1)
+            n += 1
+            chk.count(("duck-adapter", json.dumps(flt)))
+            case = dict(kind="duck-adapter", filter=flt, file=full)
+            obs = dict(is_filtered=bool(e.is_filtered()))
+            try:
+                e.save_policy()
+                obs["save"] = "written"
+            except Exception as ex:  # noqa
+                obs["save"] = "raise:" + type(ex).__name__
+            obs["file_changed"] = open(path, "rb").read().decode() != full
+            if not obs["is_filtered"] or obs["save"] == "written" or obs["file_changed"]:
+                chk.spec_fail(case, obs, dict(is_filtered=True, save="raise:RuntimeError", file_changed=False),
+                              "after a filtered load through an adapter that does not subclass FilteredAdapter the enforcer did not "
+                              "guard the store (is_filtered() false or save_policy wrote the partial view)")
+                continue
+            e.load_policy()
+            ok = (not e.is_filtered())
+            try:
+                e.save_policy()
+            except Exception:  # noqa
+                ok = False
+            if not ok:
+                chk.spec_fail(dict(case, then="load_policy; save_policy"), dict(is_filtered=bool(e.is_filtered())), "not filtered, save accepted",
+                              "a full load_policy did not end the filtered state")
+    chk.extra.setdefault("strata", {})["duck_typed_adapter"] = n
 
 
 def replay(chk):
